@@ -110,7 +110,7 @@ package ast
 //@   ensures len(stack.values) == 0 ==> result == nil
 //@   ensures len(stack.values) > 0 ==> result == stack.values[len(stack.values)-1]
 
-//@ typeinv ToBoltListener: self.stacks != nil && self.currentStack != nil
+//@ typeinv ToBoltListener: self.stacks != nil && self.currentStack != nil && forall(i, 0 <= i && i < len(self.stacks.values) ==> istype(self.stacks.values[i], *Stack))
 //@ func (*ToBoltListener).HasError
 //@   props C10
 //@   pure
@@ -146,6 +146,7 @@ package ast
 //@   props C10
 //@   modifies bl.currentStack.values, bl.err
 //@   ensures[latch] old(bl.err) != nil ==> bl.err != nil
+//@   ensures[usable] bl.err == nil ==> result != nil && ref(result) != 0
 //@   ensures[top] old(bl.err) == nil && old(len(bl.currentStack.values)) > 0 ==> bl.err == nil && result == old(bl.currentStack.values[len(bl.currentStack.values)-1]) && len(bl.currentStack.values) == old(len(bl.currentStack.values)) - 1
 //@   ensures[rest-kept] forall(i, 0 <= i && i < len(bl.currentStack.values) ==> bl.currentStack.values[i] == old(bl.currentStack.values[i]))
 //@ func (*ToBoltListener).peekStack
